@@ -32,6 +32,9 @@ type State struct {
 	Meter    []MeterRec
 	Trace    []string
 	KF       string
+	Model    map[string]*big.Int // a model of PC (variables missing from it are 0), or nil
+	AuxVars  []*Term             // internal variables (not harness inputs) created on this path
+	Bounds   map[int]ival        // unsigned intervals of bit-vector variables implied by PC
 }
 
 type MeterRec struct {
@@ -61,6 +64,8 @@ func (s *State) Clone() *State {
 		Meter:   append([]MeterRec(nil), s.Meter...),
 		Trace:   append([]string(nil), s.Trace...),
 		KF:      s.KF,
+		Model:   s.Model,
+		AuxVars: append([]*Term(nil), s.AuxVars...),
 	}
 	for k, v := range s.Heap {
 		n.Heap[k] = v
@@ -74,6 +79,12 @@ func (s *State) Clone() *State {
 	if s.CurPanic != nil {
 		cp := *s.CurPanic
 		n.CurPanic = &cp
+	}
+	if len(s.Bounds) > 0 {
+		n.Bounds = make(map[int]ival, len(s.Bounds))
+		for k, v := range s.Bounds {
+			n.Bounds[k] = v
+		}
 	}
 	return n
 }
@@ -90,6 +101,19 @@ func (s *State) Assume(c *Term) {
 		return
 	}
 	s.PC = append(s.PC, c)
+	s.learn(c)
+	// keep the invariant "Model (missing variables = 0) satisfies PC"
+	if s.Model != nil && Eval(c, s.Model, map[int]*big.Int{}).Sign() == 0 {
+		s.Model = nil
+	}
+}
+
+// modelSays evaluates a condition under the state's model of its path condition.
+func (s *State) modelSays(c *Term) (val bool, ok bool) {
+	if s.Model == nil {
+		return false, false
+	}
+	return Eval(c, s.Model, map[int]*big.Int{}).Sign() != 0, true
 }
 
 // forkSignal is raised (via panic) by decide/concretize when the current step must be re-executed
@@ -125,22 +149,63 @@ func (ex *Exec) decide(st *State, cond *Term) bool {
 		return !v
 	}
 	ex.Stats.Decides++
-	rT := ex.feasible(st, cond)
+	if v, ok := st.byInterval(cond); ok {
+		ex.Stats.IntervalDecides++
+		st.Known[cond.ID] = v
+		return v
+	}
+	// model-guided: the side the state's model takes is feasible without asking the solver
+	if mv, ok := st.modelSays(cond); ok {
+		other := neg
+		if !mv {
+			other = cond
+		}
+		r, m := ex.feasibleModel(st, other)
+		if r == Unsat {
+			st.Known[cond.ID] = mv
+			if mv {
+				st.learn(cond)
+			} else {
+				st.learn(neg)
+			}
+			return mv
+		}
+		ex.Stats.Forks++
+		a := st.Clone() // takes the side the model does NOT take, with the new model
+		a.Known[cond.ID] = !mv
+		a.Assume(other)
+		a.Model = m
+		b := st
+		b.Known[cond.ID] = mv
+		if mv {
+			b.Assume(cond)
+		} else {
+			b.Assume(neg)
+		}
+		panic(forkSignal{States: []*State{a, b}})
+	}
+	rT, mT := ex.feasibleModel(st, cond)
 	var rF Result
+	var mF map[string]*big.Int
 	if rT == Unsat {
 		rF = Sat
 	} else {
-		rF = ex.feasible(st, neg)
+		rF, mF = ex.feasibleModel(st, neg)
 	}
 	if rT == Unsat && rF == Unsat {
 		panic(abortSignal{Kind: "INFEASIBLE", Msg: "path condition unsatisfiable"})
 	}
 	if rF == Unsat {
 		st.Known[cond.ID] = true
+		st.learn(cond)
+		if mT != nil {
+			st.Model = mT
+		}
 		return true
 	}
 	if rT == Unsat {
 		st.Known[cond.ID] = false
+		st.learn(neg)
 		return false
 	}
 	// both feasible (or unknown): fork
@@ -148,21 +213,37 @@ func (ex *Exec) decide(st *State, cond *Term) bool {
 	a := st.Clone()
 	a.Known[cond.ID] = true
 	a.Assume(cond)
+	a.Model = mT
 	b := st
 	b.Known[cond.ID] = false
 	b.Assume(neg)
+	b.Model = mF
 	panic(forkSignal{States: []*State{a, b}})
 }
 
-func (ex *Exec) feasible(st *State, extra *Term) Result {
+// feasibleModel checks PC && extra and returns a model over the path's variables when sat.
+func (ex *Exec) feasibleModel(st *State, extra *Term) (Result, map[string]*big.Int) {
 	as := append(append([]*Term(nil), st.PC...), extra)
+	vars := make([]*Term, 0, len(st.Nondets)+len(st.AuxVars))
+	for _, n := range st.Nondets {
+		vars = append(vars, n.T)
+	}
+	vars = append(vars, st.AuxVars...)
 	t0 := time.Now()
-	r, _, _ := ex.Feas.Check(as, ex.FeasTimeout, nil)
+	r, m, _ := ex.Feas.Check(as, ex.FeasTimeout, vars)
 	ex.Stats.FeasTime += time.Since(t0)
 	ex.Stats.FeasQueries++
 	if r == Unknown {
 		ex.Stats.FeasUnknown++
 	}
+	if r != Sat || len(m) < len(vars) {
+		m = nil
+	}
+	return r, m
+}
+
+func (ex *Exec) feasible(st *State, extra *Term) Result {
+	r, _ := ex.feasibleModel(st, extra)
 	return r
 }
 
